@@ -274,8 +274,13 @@ func setupLive(cfg string) error {
 	if err != nil {
 		return err
 	}
-	if _, err := hk.Connect(env.L, env.V); err != nil {
-		return fmt.Errorf("connect L->V: %w", err)
+	for try := 0; ; try++ {
+		if _, err = hk.Connect(env.L, env.V); err == nil {
+			break
+		}
+		if try == 4 {
+			return fmt.Errorf("connect L->V: %w", err)
+		}
 	}
 	if err := sinkDo(func(s *sink) { s.MonitorNode(env.L.Name()) }); err != nil {
 		return err
@@ -339,8 +344,14 @@ func record() error {
 		return err
 	}
 	env.V.Network().EnableSpawn("c16dummy", func() gen.ProcessBehavior { return &dummy{} }, R.Name())
-	if _, err := hk.ConnectVia(R, env.V, "127.0.0.1", t.port); err != nil {
-		return fmt.Errorf("connect R->V via tap: %w", err)
+	for try := 0; ; try++ {
+		// the handshake has 1 s read deadlines: on a loaded machine a connect can fail for that reason alone
+		if _, err = hk.ConnectVia(R, env.V, "127.0.0.1", t.port); err == nil {
+			break
+		}
+		if try == 4 {
+			return fmt.Errorf("connect R->V via tap: %w", err)
+		}
 	}
 	rpid, err := R.Spawn(func() gen.ProcessBehavior { return &cmdActor{} }, gen.ProcessOptions{})
 	if err != nil {
@@ -616,7 +627,7 @@ func liveCaseCount(cs caseSpec) int {
 var frameTypes = []byte{101, 102, 103, 104, 105, 106, 107, 121, 122, 123, 124, 129, 130, 181, 182, 183, 184, 185, 186, 199, 200, 201, 202, 203, 0, 255}
 
 func liveInput(cs caseSpec, idx int) []byte {
-	rng := hk.Rng("c16", cs.ID, fmt.Sprint(idx))
+	rng := inputRng(cs.ID, idx)
 	pickFrame := func() []byte { return cp(env.frames[rng.Intn(len(env.frames))]) }
 	switch cs.Class {
 	case "frame-len":
@@ -787,6 +798,9 @@ func liveOne(ci int, cs caseSpec, idx int, data []byte, a *agg) {
 	}
 	if env.link == nil || env.link.isClosed() {
 		l, err := dialEvil()
+		for try := 0; err != nil && try < 3; try++ {
+			l, err = dialEvil() // 1 s handshake deadlines on a loaded machine
+		}
 		if err != nil {
 			// V does not accept an authenticated connection any more?
 			if herr := canaryCall(); herr != nil {
@@ -889,8 +903,8 @@ func liveOne(ci int, cs caseSpec, idx int, data []byte, a *agg) {
 	if allocd > allocBound(len(data)) {
 		site, stack := allocSiteSince()
 		mk("alloc-amplification/"+site, fmt.Sprintf("handling %d hostile bytes allocated %d bytes in the node process (bound %d = 64MiB + 4096 x input)", len(data), allocd, allocBound(len(data))), map[string]any{"alloc_stack": stack})
-		class += " ALLOC OUT OF PROPORTION"
-		a.extra["expensive"]++
+		a.add(class+" ALLOC OUT OF PROPORTION", true, events)
+		leaveAfterExpensive(cs.ID, a)
 	}
 	a.extra["max_alloc_per_call"] = max64(a.extra["max_alloc_per_call"], int64(allocd))
 	if incon != "" {
@@ -976,7 +990,7 @@ func liveJobs() []job {
 		}
 		id := fmt.Sprintf("live/default/frame-len/%d", l)
 		if want(id) {
-			jobs = append(jobs, job{name: fmt.Sprintf("live-framelen-%d", l), mode: "live", memKB: mem, wall: wall,
+			jobs = append(jobs, job{name: fmt.Sprintf("live-framelen-%d", l), mode: "live", memKB: mem, wall: wall, procs: 4,
 				cases: []caseSpec{{ID: id, Target: "live", Opt: "default", Class: "frame-len", Item: l, Only: -1}}})
 		}
 	}
@@ -1005,15 +1019,15 @@ func liveJobs() []job {
 		if cfg == "max64k" || len(cases) < 4 {
 			half = len(cases)
 		}
-		jobs = append(jobs, job{name: "live-" + cfg + "-a", mode: "live", memKB: mem, wall: wall, cases: cases[:half]})
+		jobs = append(jobs, job{name: "live-" + cfg + "-a", mode: "live", memKB: mem, wall: wall, procs: 4, cases: cases[:half]})
 		if half < len(cases) {
-			jobs = append(jobs, job{name: "live-" + cfg + "-b", mode: "live", memKB: mem, wall: wall, cases: cases[half:]})
+			jobs = append(jobs, job{name: "live-" + cfg + "-b", mode: "live", memKB: mem, wall: wall, procs: 4, cases: cases[half:]})
 		}
 	}
 	// declared decompressed size: each input may end the child
 	id := "live/default/z-declared-big"
 	if want(id) {
-		jobs = append(jobs, job{name: "live-zbig", mode: "live", memKB: mem, wall: wall,
+		jobs = append(jobs, job{name: "live-zbig", mode: "live", memKB: mem, wall: wall, procs: 4,
 			cases: []caseSpec{{ID: id, Target: "live", Opt: "default", Class: "z-declared-big", N: hk.Pick(6, 15), Only: onlyIdx(id)}}})
 	}
 	return jobs
